@@ -22,6 +22,10 @@ SOFT = {("services", "start"): ".svcStart", ("services", "stop"): ".svcStop", ("
         ("applications", "close"): ".appClose"}
 
 
+# classes whose method may be called unbound on a member of the node's collection (`Application.run(self.applications[x])`)
+UNBOUND_BASES = {"Application", "Service", "NetworkInterface", "WiredNetworkInterface"}
+
+
 class Unrecognised(Exception):
     pass
 
@@ -107,8 +111,14 @@ class Translator:
         if isinstance(st, ast.For) and not st.orelse and len([s for s in st.body if not _is_log(s)]) == 1:
             inner = [s for s in st.body if not _is_log(s)][0]
             it = _u(st.iter)
-            if isinstance(inner, ast.Expr) and isinstance(inner.value, ast.Call) and not inner.value.args and not inner.value.keywords:
-                f = inner.value.func
+            call = inner.value if isinstance(inner, ast.Expr) and isinstance(inner.value, ast.Call) else None
+            # unbound-method form `Class.method(obj)` = `obj.method()` resolved at `Class` (no subclass override runs): for the model the
+            # same hook statement - the base classes named here are the ones whose method the model's opaque software change stands for
+            if call is not None and not call.keywords and len(call.args) == 1 and isinstance(call.func, ast.Attribute) \
+                    and _u(call.func.value) in UNBOUND_BASES:
+                call = ast.Call(func=ast.Attribute(value=call.args[0], attr=call.func.attr, ctx=ast.Load()), args=[], keywords=[])
+            if call is not None and not call.args and not call.keywords:
+                f = call.func
                 if isinstance(f, ast.Attribute):
                     recv, verb = _u(f.value), f.attr
                     # every interface of the node: either dict, by value
